@@ -308,6 +308,16 @@ def check_altered(ctx, cirq, cirq_ionq):
             continue
         ctx.report_witness('ionq:altered-measurement', f'a measurement with {name} is submitted as a plain measurement (and reported back without it)',
                            {'lines': [{'measurement': repr(m)}], 'impl_out': [prog.input['circuit'], prog.metadata], 'spec_out': ['rejected'], 'theorem_or_correspondence': 'unsupported content is rejected'})
+    # a key measured twice cannot be mapped back (the key -> targets map is a dict): rejected, also across several circuits
+    for name, build in (('single', lambda: ser.serialize_single_circuit(cirq.Circuit(cirq.measure(q[0], key='a'), cirq.measure(q[1], key='a')))),
+                        ('many', lambda: ser.serialize_many_circuits([cirq.Circuit(cirq.X(q[0]), cirq.measure(q[0], key='a'), cirq.X(q[1]), cirq.measure(q[1], key='a'))]))):
+        ctx.count('check', 'ionq-altered:repeated-key')
+        try:
+            prog = build()
+        except ValueError:
+            continue
+        ctx.report_witness('ionq:repeated-key', 'a circuit measuring one key twice is submitted although only one of the measurements can be mapped back',
+                           {'lines': [{'entry': name}], 'impl_out': [prog.metadata], 'spec_out': ['rejected'], 'theorem_or_correspondence': 'unsupported content is rejected'})
     # AQT local (ideal) sampler: a basis-state circuit, measured under a user key
     sampler = cirq_aqt.AQTSamplerLocalSimulator(simulate_ideal=True)
     for flips in ([1, 0, 1], [0, 1], [1]):
